@@ -17,7 +17,7 @@ import (
 func init() {
 	register(&Spec{ID: "C10", Title: "No server input can crash the client", Run: runC10,
 		Meta: core.Meta{
-			Explanation: "Panic-site obligations over everything reachable from the reader goroutine. Scope: module functions reachable (VTA call graph, plus formatting edges: every String/Error method of the parsing packages) from (*Conn).ReadFrom, (*Channel).WritePacket, DataType.GoValue and rsaEncrypt; generated stringer files are excluded. R10.1: every slice/string index and every slice expression in scope is proved in range from length facts (allocation, constant-bound slicing, callee post-conditions, dominating len tests, lowered `switch len(bs)`), from induction/range-loop patterns, or is listed in the reviewed-invariant table together with the guard it relies on, which is re-checked on every run; a site that is neither is a violation (so a new unguarded index and the removal of an existing guard are both reported). R10.2: every encoding/binary ByteOrder UintN/PutUintN call (interface calls the compiler's bounds-check list does not contain) has len >= N. R10.3: no comma-less type assertion, explicit panic, or division by a possibly-zero value in scope. R10.4 (allocation provenance): the size of every make([]T, n) in scope is a constant, a length of received data, a <= 16-bit wire integer, or is dominated by a test against the bytes actually available; wire-controlled sizes that can be negative are violations. R10.5: the callee post-condition used by R10.1/R10.2 — PacketQueue.Bytes returns a slice of exactly n bytes on every return — is verified structurally; the DataType length oracle's premises (goValue's only caller is GoValue, behind the ByteSize test) are verified. R10.6: precision and scale copied from the wire into a Decimal are validated (sanity) before the value leaves the parser. R10.7: every loop in a wire-reading function performs a wire read per iteration or iterates over data already held. R10.8: a slice of pointers/interfaces allocated from a wire count and filled in a counted loop is filled completely before the parse can succeed (the loop's only normal exit is `i < n` turning false), so no nil entry is dereferenced by a later package. R10.11 = R07.1: every wire read reports a short read as ErrNotEnoughBytes and never as success — an io.Reader over the queue that answers (n, nil) without data makes bytes.Buffer.ReadFrom (TokenlessPackage) grow without bound from a one-byte input. R10.12: NextPackageUntil's self-calls are depth-bounded — a nil callback is passed only under processPkg != nil, and nil mode recurses with a function literal — so a server that never sends DONE(FINAL) cannot grow the stack with every package. R10.9: the format pointers ParamsPackage.paramFmt/rowFmt, which come from whatever package the server sent before, are only dereferenced under a != nil test of that field.",
+			Explanation: "Panic-site obligations over everything reachable from the reader goroutine. Scope: module functions reachable (VTA call graph, plus formatting edges: every String/Error method of the parsing packages) from (*Conn).ReadFrom, (*Channel).WritePacket, DataType.GoValue and rsaEncrypt; generated stringer files are excluded. R10.1: every slice/string index and every slice expression in scope is proved in range from length facts (allocation, constant-bound slicing, callee post-conditions, dominating len tests, lowered `switch len(bs)`), from induction/range-loop patterns, or is listed in the reviewed-invariant table together with the guard it relies on, which is re-checked on every run; a site that is neither is a violation (so a new unguarded index and the removal of an existing guard are both reported). R10.2: every encoding/binary ByteOrder UintN/PutUintN call (interface calls the compiler's bounds-check list does not contain) has len >= N. R10.3: no comma-less type assertion, explicit panic, or division by a possibly-zero value in scope. R10.4 (allocation provenance): the size of every make([]T, n) in scope is a constant, a length of received data, a <= 16-bit wire integer, or is dominated by a test against the bytes actually available; wire-controlled sizes that can be negative are violations. R10.5: the callee post-condition used by R10.1/R10.2 — PacketQueue.Bytes returns a slice of exactly n bytes on every return — is verified structurally; the DataType length oracle's premises (goValue's only caller is GoValue, behind the ByteSize test) are verified. R10.6: precision and scale copied from the wire into a Decimal are validated (sanity) before the value leaves the parser. R10.7: every loop in a wire-reading function performs a wire read per iteration or iterates over data already held. R10.8: a slice of pointers/interfaces allocated from a wire count and filled in a counted loop is filled completely before the parse can succeed (the loop's only normal exit is `i < n` turning false), so no nil entry is dereferenced by a later package. R10.11 = R07.1: every wire read reports a short read as ErrNotEnoughBytes and never as success — an io.Reader over the queue that answers (n, nil) without data makes bytes.Buffer.ReadFrom (TokenlessPackage) grow without bound from a one-byte input. R10.12: NextPackageUntil's self-calls are depth-bounded — a nil callback is passed only under processPkg != nil, and nil mode recurses with a function literal — so a server that never sends DONE(FINAL) cannot grow the stack with every package. R10.13: in scope, the result of indexing a map with pointer/interface/function elements is dereferenced only under `ok` or a != nil test (the key is frequently a server-chosen byte). R10.9: the format pointers ParamsPackage.paramFmt/rowFmt, which come from whatever package the server sent before, are only dereferenced under a != nil test of that field.",
 			NotDecided:  "Nil dereferences (nilaway's two reports on the pinned tree are infeasible), panics inside the standard library, stack exhaustion and unbounded CPU are not decided.",
 			Assumptions: []string{"the reviewed-invariant table entries (each with the guard it names)", "math/big, bytes, encoding/binary do not panic on the inputs they are given"},
 		}})
@@ -122,6 +122,7 @@ func runC10(r *core.Run) {
 	r.Rule("R10.7", "parser loops consume input or range over data already held", 8, false)
 	r.Rule("R10.10", "the server's public key: the PEM block is used only where it is known non-nil (R08.9)", 1, false)
 	defer c08PemBlock(r, "R10.10")
+	r.Rule("R10.13", "map elements of pointer type are dereferenced only under a presence test", 1, false)
 	r.Rule("R10.12", "the depth of NextPackageUntil's self-recursion does not depend on what the server sends", 1, false)
 	defer c10RecursionBounded(r)
 	r.Rule("R10.11", "no reader reports success for bytes it did not have: every short read is ErrNotEnoughBytes (E-ERR, all call sites)", 213, true)
@@ -192,6 +193,7 @@ func runC10(r *core.Run) {
 	c10Loops(r)
 	c10FillCompletely(r)
 	c10FormatPointers(r)
+	c10MapLookupNil(r, scope)
 }
 
 func c10Reviewed(p *core.Prog) []reviewedSiteM {
@@ -1198,5 +1200,83 @@ func c10RecursionBounded(r *core.Run) {
 	}
 	if n == 0 {
 		r.OK("R10.12", "NextPackageUntil: recursion depth is bounded", fn.Pos(), "no self-call")
+	}
+}
+
+// c10MapLookupNil: R10.13. The result of indexing a map whose elements are pointers (or interfaces, functions) is nil
+// for a key that is not in the map. In the functions reachable from the reader goroutine the key is often a byte the
+// server sent, so such a result is dereferenced (field access, method call) only under a test that it is non-nil or
+// under the `ok` of the comma-ok form.
+func c10MapLookupNil(r *core.Run, scope []*ssa.Function) {
+	n := 0
+	for _, fn := range scope {
+		for _, b := range fn.Blocks {
+			for _, in := range b.Instrs {
+				lk, ok := in.(*ssa.Lookup)
+				if !ok {
+					continue
+				}
+				mt, isMap := lk.X.Type().Underlying().(*types.Map)
+				if !isMap {
+					continue
+				}
+				switch mt.Elem().Underlying().(type) {
+				case *types.Pointer, *types.Interface, *types.Signature:
+				default:
+					continue
+				}
+				var val ssa.Value = lk
+				var okVal ssa.Value
+				if lk.CommaOk {
+					val = nil
+					for _, ref := range *lk.Referrers() {
+						if ex, isEx := ref.(*ssa.Extract); isEx {
+							if ex.Index == 0 {
+								val = ex
+							} else {
+								okVal = ex
+							}
+						}
+					}
+					if val == nil {
+						continue
+					}
+				}
+				for _, ref := range *val.Referrers() {
+					deref := false
+					switch u := ref.(type) {
+					case *ssa.FieldAddr:
+						deref = u.X == val
+					case *ssa.UnOp:
+						deref = u.Op == token.MUL && u.X == val
+					case ssa.CallInstruction:
+						deref = u.Common().IsInvoke() && u.Common().Value == val
+						if !deref && !u.Common().IsInvoke() && u.Common().Value == val {
+							deref = true // calling a nil func value
+						}
+					}
+					if !deref {
+						continue
+					}
+					n++
+					guarded := false
+					for _, g := range core.GuardsAt(ref.(ssa.Instruction)) {
+						if okVal != nil && g.Cond == okVal && g.Pol {
+							guarded = true
+						}
+						if bo, isB := g.Cond.(*ssa.BinOp); isB && bo.X == val && core.IsNil(bo.Y) {
+							if (bo.Op == token.NEQ && g.Pol) || (bo.Op == token.EQL && !g.Pol) {
+								guarded = true
+							}
+						}
+					}
+					key := core.FuncName(fn) + ": " + core.KExpr(lk.X) + "[" + core.KExpr(lk.Index) + "] used"
+					r.Check(guarded, "R10.13", key, ref.Pos(), "under a nil / ok test", "the element of a map of "+core.TypeStr(mt.Elem())+" is dereferenced without a test that the key is present: for a key the map does not hold (e.g. a type byte the server made up) this is a nil pointer dereference in the reader goroutine")
+				}
+			}
+		}
+	}
+	if n == 0 {
+		r.OK("R10.13", "no map element of pointer type is dereferenced in scope", token.NoPos, "no such site")
 	}
 }
